@@ -411,13 +411,13 @@ func checkValueComparators(c *core.Ctx) {
 	p := c.Prog
 	// comparators on values
 	type cmpSite struct{ rel, name string }
-	for _, s := range []cmpSite{{"aggregates", "(*minKey).Less"}, {"aggregates", "(*maxKey).Less"}, {"aggregates", "(*arrayKey).Less"}} {
-		fn := p.Func(s.rel, s.name)
-		key := s.rel + "." + s.name
-		if fn == nil {
-			c.Unknown("USERS", key, 0, "anchor not found")
-			continue
-		}
+	_ = cmpSite{}
+	aggLess := treeItemLessMethods(p, "aggregates")
+	if len(aggLess) == 0 {
+		c.Unknown("USERS", "aggregates.<Less methods>", 0, "no Less(btree.Item) method found in the aggregates package")
+	}
+	for _, fn := range aggLess {
+		key := p.FName(fn)
 		res := map[int64]string{}
 		n := 0
 		var err error
